@@ -7,3 +7,23 @@ Definition gen_ready_on_error : bool := false.
 Definition gen_close_on_cancel : bool := true.
 Definition gen_accept_retry : bool := true.
 Definition gen_untrack_late : bool := true.
+Require Import Coq.Strings.String Coq.Lists.List.
+Import ListNotations.
+Open Scope string_scope.
+Definition gen_skeleton : list (string * nat) := [
+  ("Stop.returns_before_wait", 2);
+  ("Stop.returns", 3);
+  ("Run.returns", 6);
+  ("Run.conn_goroutine.returns", 2);
+  ("Run.conn_goroutine.teardown.returns", 0);
+  ("serveRequests.returns", 7);
+  ("serveRequests.dispatch_cases", 3);
+  ("Run.go_statements", 1);
+  ("serveRequests.go_statements", 1);
+  ("Stop.go_statements", 0);
+  ("deadline:Run.SetReadDeadline", 1);
+  ("deadline:Run.SetWriteDeadline", 1);
+  ("deadline:interrupt.SetDeadline", 1);
+  ("deadline:serveRequests.SetReadDeadline", 1);
+  ("package_level_sync_state", 0)
+].
